@@ -9,29 +9,33 @@ EXTENDS TextArchive, TLC, Json, IOUtils
 
 Rec == ndJsonDeserialize(IOEnv.TRACE)
 
+\* Two archive objects may be alive at the same time (events carry "obj"; a history that uses one object omits it):
+\* each object is its own state machine - nothing done to one archive may show in the other.
 VARIABLES i, st, fmt, bad
 vars == <<i, st, fmt, bad>>
 
 KeepsTitle(f) == f \in {"unicode-le", "unicode-be"}
+Objs == {0, 1}
+ObjOf(ev) == IF "obj" \in DOMAIN ev THEN ev.obj ELSE 0
 
-Init == i = 1 /\ st = New("") /\ fmt = "unicode-le" /\ bad = <<>>
+Init == i = 1 /\ st = [o \in Objs |-> New("")] /\ fmt = [o \in Objs |-> "unicode-le"] /\ bad = <<>>
 
 Accept(ev) ==
   \/ ev.op = "reset"
-  \/ [res |-> ev.res, st |-> ev.post] \in Outcomes(st, ev, KeepsTitle(fmt), "")
+  \/ [res |-> ev.res, st |-> ev.post] \in Outcomes(st[ObjOf(ev)], ev, KeepsTitle(fmt[ObjOf(ev)]), "")
 
 Next ==
   /\ i <= Len(Rec)
   /\ LET ev == Rec[i] IN
        /\ i' = i + 1
-       /\ st' = ev.post
-       /\ fmt' = IF ev.op = "reset" THEN ev.fmt ELSE fmt
+       /\ st' = [st EXCEPT ![ObjOf(ev)] = ev.post]
+       /\ fmt' = IF ev.op = "reset" THEN [fmt EXCEPT ![ObjOf(ev)] = ev.fmt] ELSE fmt
        /\ bad' = IF Accept(ev) THEN bad ELSE Append(bad, i)
 
 Spec == Init /\ [][Next]_vars
 
 \* every logged state satisfies the state-level laws too
-StateLaws == KeysDistinct(st) /\ NoStoredPair(st) /\ EscapeSymmetric(st)
+StateLaws == \A o \in Objs : KeysDistinct(st[o]) /\ NoStoredPair(st[o]) /\ EscapeSymmetric(st[o])
 Report == (i = Len(Rec) + 1) =>
             PrintT("R " \o ToJson([n |-> Len(Rec), bad |-> bad]))
 =============================================================================
